@@ -37,6 +37,7 @@ fn main() {
         "cross.heur" => cross::run_heur(seed, thorough),
         "cross.sets" => cross::run_sets(seed, thorough),
         "cross.ext" => cross::run_ext(seed, thorough),
+        "cross.ext.pg" => cross::run_ext_pg(seed, thorough),
         "cross.repro" => cross::run_repro(seed, thorough, args.iter().any(|a| a == "--warmup")),
         "e2e.table" => e2e::run_table(seed, thorough, if thorough { 20000 } else { 1200 }),
         _ => {
